@@ -2,13 +2,15 @@
    channels, close, range, select, wait group, deferred close), generic in the program, and the abstraction
    that maps a configuration of [pool_program] to a state of the hand-written transition system Scan/Pool.v.
 
-   Nothing is proved here.  The definitions are executable; the harness explores, for small numbers of files
-   and every set of unreadable files, ALL configurations reachable under this semantics from the program the
-   translator extracted from graph.Initialize, and checks that the abstraction is a simulation onto Pool.step
-   whose image is exactly Pool's reachable transition graph, that no configuration panics (send on / close of
-   a closed channel) and that only finished configurations are stuck (lib/props/merge.py, `model skel`).  This
-   validates the hand abstraction of Pool.v against the source on bounded instances; the unbounded statements
-   are the theorems about Pool.v (C07).
+   Nothing is proved in this file (so that the definitions stay executable when a proof breaks).  Scan/SkelSim.v
+   proves, for EVERY list of files and every failure assignment, that the abstraction of Scan/SkelAbs.v is a
+   simulation from this semantics of the extracted program onto Pool.step, that no configuration panics, that
+   only finished configurations are stuck, and transfers PoolFacts' delivery / merge-order theorems to the
+   configurations of the program (Properties/C07.v, C07_program_*).  The harness still explores, for small
+   numbers of files and every set of unreadable files, ALL configurations reachable under the EXTRACTED
+   (OCaml) semantics and re-checks the same facts plus coverage (every Pool transition is the image of some
+   step): a cross-check of extraction and of the one direction the theorems do not state (lib/props/merge.py,
+   `model skel`).
 
    Channel semantics (Go spec): a send proceeds iff the buffer has room (a channel of capacity 0 is never
    ready here: nobody ever receives from one while a sender waits in this program); a receive takes the oldest
